@@ -580,6 +580,51 @@ def replay_one(r, chk=None, stats=None, cases=None, metas=None):
     return None
 
 
+def _replay_simple(r):
+    """Averaging / sequence learner: re-deliver the recorded results in the reference and the failing order."""
+    from adaptive import AverageLearner, SequenceLearner
+    results = [tuple(x) for x in r["results"]]
+    order = r.get("order") or list(range(len(results)))
+
+    def deliver(order, mode):
+        if r["kind"] == "avg":
+            l = AverageLearner(lambda s: 0.0, **r["kw"])
+            for p in r["pend"]:
+                l.tell_pending(p)
+            pts = [results[i] for i in order]
+            if mode == "tell_many":
+                l.tell_many([s for s, _ in pts], [v for _, v in pts])
+            else:
+                for s_, v in pts:
+                    l.tell(s_, v)
+            if r.get("retell"):
+                before = avg_observe(l)
+                l.tell(*r["retell"])
+                return before, avg_observe(l)
+            return avg_observe(l)
+        seq = [[i, i + 0.5] for i in range(r["ntotal"])]
+        l = SequenceLearner(lambda x: 0, seq)
+        for p in r["pend"]:
+            l.tell_pending((p, seq[p]))
+        pts = [results[i] for i in order]
+        if mode == "tell_many":
+            l.tell_many([(i, seq[i]) for i, _ in pts], [v for _, v in pts])
+        else:
+            for i, v in pts:
+                l.tell((i, seq[i]), v)
+        return seq_observe(l)
+
+    if r.get("retell"):
+        before, after = deliver(list(range(len(results))), "tell")
+        return avg_compare(before, after, True)
+    ref = deliver(list(range(len(results))), "tell")
+    got = deliver(order, r.get("mode", "tell"))
+    if r["kind"] == "avg":
+        return avg_compare(ref, got, False)
+    diff = [k for k in ref if ref[k] != got[k]]
+    return (diff[0], f"{got[diff[0]]} vs {ref[diff[0]]}") if diff else None
+
+
 def replay(doc) -> int:
     bad = 0
     for f in doc.get("failing_inputs", []):
@@ -587,8 +632,17 @@ def replay(doc) -> int:
         if r.get("kind") == "l1d":
             res = replay_one(r)
             print("replayed Learner1D", r["cfg"], r.get("mode"), r.get("order"), "->", res or "oracle silent")
-            bad += bool(res)
+        elif r.get("kind") in ("avg", "seq"):
+            res = _replay_simple(r)
+            print("replayed", r["kind"], r.get("mode"), r.get("order"), "->", res or "oracle silent")
         else:
-            print("replay of", r.get("kind"), "cases: re-run ./check C11 with the same seed;", f.get("what", "")[:200])
+            continue
+        bad += bool(res)
+    for b in doc.get("no_longer_checks", []):
+        d = b.get("detail")
+        if isinstance(d, dict) and "cfg" in d and "ops" in d:
+            l, rec, steps = I.drive(d["cfg"], None, 0, ops=[I.norm_op(o) for o in d["ops"]])
+            print("re-ran the disagreeing correspondence case on the implementation:", d["cfg"], len(steps), "ops; "
+                  "re-run ./check C11 to compare with the model")
             bad += 1
     return 1 if bad else 0
